@@ -68,6 +68,7 @@ def run(idx: ProgramIndex, rep: Report, tier: str):
     derivative_diag_layout(idx, rep)
     lazy_batch_ops(idx, rep)
     block_shapes(idx, rep)
+    own_batch_shape(idx, rep)
 
 
 # ---- C06-1 ---------------------------------------------------------------------------------------------------------
@@ -705,3 +706,52 @@ def block_shapes(idx: ProgramIndex, rep: Report):
         if se.checked < 5:
             rep.observe("C06-10", "%s:%s.forward" % (cls.module.name, cls.qualname), fi.where, "only %d shape obligations could be formed: the code is outside the shape domain" % se.checked)
     rep.floor("C06-10", "derivative kernels", n, 3)
+
+
+# ---- C06-11 --------------------------------------------------------------------------------------------------------
+def own_batch_shape(idx: ProgramIndex, rep: Report):
+    """Kernel.__getitem__ / expand_batch return a deep copy whose parameters and buffers were indexed / expanded.  The copy's own batch
+    shape (`_batch_shape`, which LazyEvaluatedKernelTensor trusts for its size) has to follow on every path - in particular for kernels
+    that own no parameter (MultitaskKernel(batch_shape=...), structure kernels), where a statement inside the loop over the kernel's
+    parameters never runs."""
+    rep.rule("C06-11", "batch transformations of a kernel (Kernel.__getitem__, expand_batch) assign the copy's own batch shape outside the loops over the kernel's parameters and buffers: a kernel without parameters of its own is re-shaped too")
+    K = kernel_cls(idx)
+    n = 0
+    for mname in ("__getitem__", "expand_batch"):
+        fi = idx.method(K, mname, own=True)
+        copies = {t.id for a in ast.walk(fi.node) if isinstance(a, ast.Assign) and isinstance(a.value, ast.Call) and (chain(a.value.func) or "").split(".")[-1] == "deepcopy" for t in a.targets if isinstance(t, ast.Name)}
+        if not copies:
+            raise AnalysisError("C06-11: Kernel.%s no longer works on a deepcopy of self" % mname)
+        n += 1
+        sites = []
+        for a in ast.walk(fi.node):
+            if isinstance(a, ast.Assign) and any(isinstance(t, ast.Attribute) and isinstance(t.value, ast.Name) and t.value.id in copies and t.attr in ("batch_shape", "_batch_shape") for t in a.targets):
+                sites.append(a)
+        outside = []
+        for a in sites:
+            encl = _enclosing(fi.node, a)
+            in_loop = any(isinstance(e, (ast.For, ast.While)) for e in encl)
+            foreign_guard = [e for e in encl if isinstance(e, ast.If) and not ("_batch_shape" in src(e.test) or "batch_shape" in src(e.test))]
+            if not in_loop and not foreign_guard:
+                outside.append(a)
+        ok = bool(outside)
+        rep.add("C06-11", "%s:Kernel.%s[own batch shape]" % (K.module.name, mname), fi.where, ok,
+                "the copy's batch shape is assigned at line %d, outside the parameter / buffer loops" % outside[0].lineno if ok else
+                ("the copy's batch shape is only assigned inside the loops over the kernel's own parameters / buffers (line(s) %s): a kernel with a batch shape but no parameter of its own (MultitaskKernel(batch_shape=[b])) keeps the old batch shape, the lazily evaluated kernel tensor then reports the un-indexed size" % ", ".join(str(a.lineno) for a in sites)
+                 if sites else "the copy's batch shape is never assigned"), {})
+    rep.floor("C06-11", "batch transformations of Kernel", n, 2)
+
+
+def _enclosing(fn: ast.AST, target: ast.AST) -> List[ast.AST]:
+    out: List[ast.AST] = []
+
+    def rec(node, stack):
+        if node is target:
+            out.extend(stack)
+            return True
+        for ch in ast.iter_child_nodes(node):
+            if rec(ch, stack + [node]):
+                return True
+        return False
+    rec(fn, [])
+    return out
